@@ -1,4 +1,4 @@
-import NitroVerif.Lemmas.CheckOp
+import NitroVerif.Lemmas.CheckOpComplete
 /-!
 # C04 — `check` raises no diagnostic on spec-valid operation documents
 
@@ -70,13 +70,59 @@ theorem C04_no_false_alarm_document_level (S : Schema) (D : Doc) (hv : SpecValid
         simpa [ops_eq] using h2
       simp [defHeader, hn, hlen]
 
+/-- C04, variable definitions: on a spec-valid document `check_variables_definition` raises no
+    `DuplicatedVariableName`, `UnknownType` or `NoOutputType` — what it reports for an operation is exactly what
+    the checks of the variables' directives and default values report. -/
+theorem C04_no_false_alarm_variable_definitions (S : Schema) (D : Doc) (hv : SpecValid S D) :
+    ∀ o ∈ opsOf D, checkVariablesAux S [] o.vars = o.vars.flatMap (varDefRest S) := by
+  have hall : ∀ r ∈ ruleTable ++ extraRuleTable, r.2 S D = true := by
+    unfold SpecValid specValidB at hv
+    exact List.all_eq_true.mp hv
+  have h1 : rule_5_8_1 S D = true := hall ("5.8.1", rule_5_8_1) (by simp [ruleTable])
+  have h2 : rule_5_8_2 S D = true := hall ("5.8.2", rule_5_8_2) (by simp [ruleTable])
+  intro o ho
+  rw [← ops_eq] at ho
+  apply checkVariablesAux_rest
+  · intro x hx; cases hx
+  · exact List.all_eq_true.mp h1 o ho
+  · intro v hvm
+    have := List.all_eq_true.mp (List.all_eq_true.mp h2 o ho) v hvm
+    unfold isInputType?
+    cases hk : S.kindOf? v.ty.unwrapped with
+    | none => simp [hk] at this
+    | some k => simp [hk] at this ⊢; exact this
+
+/-- C04, fragment targets: on a spec-valid document `check_fragment_definition` raises neither `UnknownType` nor
+    `InvalidFragmentTarget` — the type condition of every fragment definition is found and is composite. -/
+theorem C04_no_false_alarm_fragment_targets (S : Schema) (D : Doc) (hv : SpecValid S D) :
+    ∀ f ∈ fragsOf D, ∃ t, S.typeDef? f.cond = some t ∧ (directFields t).isSome = true := by
+  have hall : ∀ r ∈ ruleTable ++ extraRuleTable, r.2 S D = true := by
+    unfold SpecValid specValidB at hv
+    exact List.all_eq_true.mp hv
+  have h1 : rule_5_5_1_2 S D = true := hall ("5.5.1.2", rule_5_5_1_2) (by simp [ruleTable])
+  have h2 : rule_5_5_1_3 S D = true := hall ("5.5.1.3", rule_5_5_1_3) (by simp [ruleTable])
+  intro f hf
+  have hc : f.cond ∈ typeConditions S D := by
+    simp only [typeConditions, List.mem_append, List.mem_map]
+    exact Or.inl ⟨f, by rw [frags_eq]; exact hf, rfl⟩
+  have e1 := List.all_eq_true.mp h1 _ hc
+  have e2 := List.all_eq_true.mp h2 _ hc
+  cases ht : S.typeDef? f.cond with
+  | none => simp [ht] at e1
+  | some t =>
+    refine ⟨t, rfl, isComposite_directFields ?_⟩
+    simpa [Schema.kindOf?, ht] using e2
+
 /-
 OPEN — carried by K/O only (stated, not proved):
 
 theorem C04_no_false_alarm : SchemaValid S → SpecValid S D → checkOp S D = []
 
+Proved so far: the header diagnostics of the main loop (`C04_no_false_alarm_document_level`), the duplicate-name /
+type diagnostics of `check_variables_definition` (`C04_no_false_alarm_variable_definitions`) and the target diagnostics
+of `check_fragment_definition` (`C04_no_false_alarm_fragment_targets`).
 Remaining obligations: for every definition, `defBody S D d = []` — i.e. completeness of `checkOperation`
-(directives, variable definitions and their defaults, the subscription root count, and the walk
+(directives, variable definitions' directives and defaults, the subscription root count, and the walk
 `checkSelectionSet` through fields, inline fragments and — by fuel — fragment spreads, including the adequacy of
 the fuel: on a spec-valid document the stack check fires before the fuel runs out) and of
 `checkFragmentDefinition` (the direct walk of fragments no operation spreads). The implementation is stricter
